@@ -320,6 +320,7 @@ class Tap:
         self.wire = wire
         self.links = {}
         self.keep = keep_payloads
+        self.listeners = []       # handed to every LinkTap that comes up
         self.ok = install_capture()
         self._prev = wire.on_write
         wire.on_write = self._on_write
@@ -328,6 +329,7 @@ class Tap:
         lt = self.links.get(pipe.link.idx)
         if lt is None:
             lt = self.links[pipe.link.idx] = LinkTap(pipe.link, self.keep)
+            lt.listeners.extend(self.listeners)
         lt.on_write(pipe, idx, data)
         if self._prev:
             self._prev(pipe, idx, data)
